@@ -599,12 +599,13 @@ def _prepare_czt_basis(N, M, K, shift, alpha, dtype, norm=False):
 
     # need to populate h piecewise, see Jurling2014 48c, 48d
     start = -(N // 2 - M // 2) + shift  # distance between the origin samples N//2 (input) and M//2 (output)
-    j = np.arange(-start, -start+M, dtype=dtype)  # do not need a "-1" because arange is naturally end-exclusive
+    # integer-length aranges, offset afterwards: with a fractional shift, arange(-start, -start+M) can return M+1 samples
+    j = np.arange(M, dtype=dtype) - start
     # j is an index variable
     h[:M] = np.pi * (j * j)
 
     # check for off-by-1 bug
-    j = np.arange(-start-N+1, -start, dtype=dtype)
+    j = np.arange(-N+1, 0, dtype=dtype) - start
     h[K-N+1:K] = np.pi * (j * j)
 
     # order matters, scalar * scalar * array avoids operations on whole array over and over again
